@@ -22,6 +22,15 @@ PROP = {
         "GunYu.Props.C03.crc64_tab_eq_jones",
         "GunYu.Props.C03.dump_payload",
         "GunYu.Props.C03.dump_verifies",
+        "GunYu.Props.C03.string_roundtrip",
+        "GunYu.Props.C03.lzf_roundtrip",
+        "GunYu.Props.C03.ziplist_roundtrip",
+        "GunYu.Props.C03.listpack_roundtrip",
+        "GunYu.Props.C03.intset_roundtrip",
+        "GunYu.Props.C03.expand_roundtrip",
+        "GunYu.Props.C03.raw_is_encode",
+        "GunYu.Props.C03.ttl_absolute",
+        "GunYu.Props.C03.replay_db",
     ],
     "expected_facts": {"crc64tab_len": 256, "rdb_consts": EXPECTED_RDB_CONSTS},
     "harness": [
